@@ -1,6 +1,8 @@
 package node
 
 import (
+	"encoding/base64"
+	"encoding/hex"
 	"encoding/json"
 	"fmt"
 	"sort"
@@ -16,9 +18,9 @@ import (
 
 // Durable is what survives a crash of the node process.
 type Durable struct {
-	Store     *MemStore
-	BtcWallet *WalletState
-	LbtcWall  *WalletState
+	Store      *MemStore
+	BtcWallet  *WalletState
+	LbtcWall   *WalletState
 	Suspicious map[string]bool
 }
 
@@ -30,8 +32,8 @@ type Cfg struct {
 	LbtcCfg   *WalletCfg
 	Premium   *premium.Setting
 	// Policy, when non-nil, replaces the permissive simulated policy.
-	Policy   swap.Policy
-	MinMsat  uint64
+	Policy  swap.Policy
+	MinMsat uint64
 	// Watchers, when non-nil, replace the idealised watchers.
 	BtcWatcher, LbtcWatcher swap.TxWatcher
 	// LbtcValidator / LbtcWallet override (integrated tier)
@@ -185,6 +187,22 @@ type SwapView struct {
 
 // Swaps returns persisted swaps sorted by creation order.
 func (n *Node) Swaps() []*swap.SwapStateMachine {
+	n.D.Store.mu.Lock()
+	if n.D.Store.cache != nil && n.D.Store.cacheAt == n.D.Store.Writes {
+		c := n.D.Store.cache
+		n.D.Store.mu.Unlock()
+		return c
+	}
+	at := n.D.Store.Writes
+	n.D.Store.mu.Unlock()
+	out := n.swapsUncached()
+	n.D.Store.mu.Lock()
+	n.D.Store.cache, n.D.Store.cacheAt = out, at
+	n.D.Store.mu.Unlock()
+	return out
+}
+
+func (n *Node) swapsUncached() []*swap.SwapStateMachine {
 	all, _ := n.D.Store.All()
 	byID := map[string]*swap.SwapStateMachine{}
 	for _, s := range all {
@@ -205,23 +223,23 @@ func (n *Node) Active(id string) *swap.SwapStateMachine {
 	return s
 }
 
-// Key is the canonical state key component of the node.
+// Key renders the node state with raw (random) material; Tokens lists that
+// material in a deterministic order so that the caller can label it.
 func (n *Node) Key() string {
-	lab := n.W.Label
 	var parts []string
+	rawAll := n.D.Store.Raw()
 	for _, id := range n.D.Store.Order {
-		raw := n.D.Store.Raw()[id]
-		parts = append(parts, lab("id", id)+"="+CanonRecord(n.W, raw))
+		parts = append(parts, id+"="+rawAll[id])
 		if a := n.Active(id); a != nil {
-			parts = append(parts, "active:"+lab("id", id)+":"+string(a.Current))
+			parts = append(parts, "active:"+id+":"+string(a.Current))
 		}
 	}
 	k := fmt.Sprintf("N[%s inc=%d dead=%v %s", n.Cfg.ID[:4], boolInt(n.Inc > 0), n.Life.Dead(), strings.Join(parts, ";"))
 	if n.BtcW != nil {
-		k += n.BtcW.Key(lab)
+		k += n.BtcW.Key()
 	}
 	if n.LbtcW != nil {
-		k += n.LbtcW.Key(lab)
+		k += n.LbtcW.Key()
 	}
 	var sus []string
 	for p := range n.D.Suspicious {
@@ -229,7 +247,62 @@ func (n *Node) Key() string {
 	}
 	sort.Strings(sus)
 	k += fmt.Sprintf(" sus%v]", sus)
-	return k + n.LN.Key(lab)
+	return k + n.LN.Key()
+}
+
+// Tokens returns the random strings of the node's swaps in a deterministic
+// order (store order, fixed field order): class, value pairs.
+func (n *Node) Tokens() [][2]string {
+	var out [][2]string
+	add := func(class, v string) {
+		if v != "" {
+			out = append(out, [2]string{class, v})
+		}
+	}
+	inv := func(pr string) {
+		if pr == "" {
+			return
+		}
+		add("inv", pr)
+		if i, err := world.DecodeInvoice(pr); err == nil {
+			add("h", i.Hash)
+		}
+	}
+	for _, sm := range n.Swaps() {
+		d := sm.Data
+		add("id", sm.SwapId.String())
+		add("sk", base64.StdEncoding.EncodeToString(d.PrivkeyBytes))
+		add("skhex", hex.EncodeToString(d.PrivkeyBytes))
+		if d.SwapInRequest != nil {
+			add("pk", d.SwapInRequest.Pubkey)
+		}
+		if d.SwapOutRequest != nil {
+			add("pk", d.SwapOutRequest.Pubkey)
+		}
+		if d.SwapInAgreement != nil {
+			add("pk", d.SwapInAgreement.Pubkey)
+		}
+		if d.SwapOutAgreement != nil {
+			add("pk", d.SwapOutAgreement.Pubkey)
+			inv(d.SwapOutAgreement.Payreq)
+		}
+		if d.OpeningTxBroadcasted != nil {
+			inv(d.OpeningTxBroadcasted.Payreq)
+			add("tx", d.OpeningTxBroadcasted.TxId)
+			add("bk", d.OpeningTxBroadcasted.BlindingKey)
+		}
+		if d.CoopClose != nil {
+			add("skhex", d.CoopClose.Privkey)
+		}
+		add("bk", d.BlindingKeyHex)
+		add("pre", d.FeePreimage)
+		add("pre", d.ClaimPreimage)
+		add("h", d.ClaimPaymentHash)
+		add("tx", d.ClaimTxId)
+		add("txhex", d.OpeningTxHex)
+		add("msg", base64.StdEncoding.EncodeToString(d.NextMessage))
+	}
+	return out
 }
 
 func boolInt(b bool) int {
@@ -239,67 +312,5 @@ func boolInt(b bool) int {
 	return 0
 }
 
-// CanonRecord replaces random material in a persisted record by labels.
-func CanonRecord(w *world.World, raw string) string {
-	var v any
-	if err := json.Unmarshal([]byte(raw), &v); err != nil {
-		return raw
-	}
-	v = canon(w, "", v)
-	b, _ := json.Marshal(v)
-	return string(b)
-}
-
-var randomFields = map[string]string{
-	"swap_id": "id", "pubkey": "pk", "private_key": "sk", "payreq": "inv", "Payreq": "inv", "tx_id": "tx",
-	"blinding_key": "bk", "fee_preimage": "pre", "opening_tx_hex": "txhex", "claim_tx_id": "tx",
-	"claim_payment_hash": "h", "claim_preimage": "pre", "next_message": "msg", "privkey": "sk",
-	"created_at": "t",
-}
-
-func canon(w *world.World, key string, v any) any {
-	switch x := v.(type) {
-	case map[string]any:
-		out := map[string]any{}
-		for k, vv := range x {
-			out[k] = canon(w, k, vv)
-		}
-		return out
-	case []any:
-		for i := range x {
-			x[i] = canon(w, key, x[i])
-		}
-		return x
-	case string:
-		if cls, ok := randomFields[key]; ok && x != "" {
-			if cls == "msg" {
-				return "msg"
-			}
-			return w.Label(cls, x)
-		}
-		if key == "message" || key == "cancel_message" || key == "last_err" {
-			// error texts may embed ids / invoices
-			return scrub(w, x)
-		}
-		return x
-	case float64:
-		if key == "created_at" {
-			return int64(x) - w.Epoch.Unix()
-		}
-		return x
-	}
-	return v
-}
-
-func scrub(w *world.World, s string) string {
-	// replace long hex / invoice tokens by a fixed marker
-	f := strings.FieldsFunc(s, func(r rune) bool { return r == ' ' || r == ',' || r == ':' || r == '\n' || r == '\t' })
-	for _, tok := range f {
-		if len(tok) >= 32 {
-			s = strings.ReplaceAll(s, tok, "#")
-		}
-	}
-	return s
-}
-
 var _ = time.Second
+var _ = json.Marshal
